@@ -54,18 +54,56 @@ PROGRAMS = [
         "section ; ltsave ; ltrehash 1 ; ltfind 3 ; ltload ; ltfind 4 ; end",
         "find 1 ; find 2 ; find 3",
         "find 4 ; find 5 ; updatefn 5 1"]),
+    # S=1, hp=2, multiplicative hash: both candidate buckets of key 1 are full (5 and 3), 5 can be displaced to bucket 0.
+    # T0's upsert of the absent key must displace; T1 frees a slot and inserts the same key in T0's unlocked window.
+    ("same-key-upsert-during-displacement", 4, 4, "5 50 3 30", [
+        "upsert 1 5 ; find 1",
+        "erase 3 ; upsert 1 7",
+        "find 5 ; find 1"]),
+    ("same-key-upsert-during-displacement-hp3", 4, 8, "9 90 7 70", [
+        "upsert 1 5 ; find 1",
+        "erase 7 ; upsert 1 7",
+        "updatefn 9 1 ; find 1"]),
     ("two-resizers", 0, 2, "1 1 2 2 3 3", [
         "rehash 3 ; find 1",
         "reserve 30 ; find 2",
         "insert 4 4 ; insert 5 5 ; insert 6 6 ; insert 7 7"]),
+    # S=1, stripe limit 4: the doubling 2^2 -> 2^3 leaves 4 stripes pending; the last ones are migrated by different threads
+    ("migration-lazy-4", 0, 4, "0 0 1 1 2 2 3 3", [
+        "insert 4 4 ; find 4",
+        "find 3 ; find 7",
+        "find 2 ; find 6"]),
     ("migration-lazy", 0, 2, "0 0 1 1 2 2 3 3", [
         "insert 4 4 ; insert 5 5 ; insert 6 6 ; insert 7 7 ; insert 8 8",
         "find 0 ; find 1 ; find 2 ; find 3",
         "updatefn 0 1 ; erase 1 ; find 8"]),
 ]
 
-CONFIGS_QUICK = [(2, 2), (4, 4), (1, 2)]           # (S, M)
+CONFIGS_QUICK = [(2, 2), (4, 4), (1, 2), (1, 4)]           # (S, M)
 CONFIGS_THOROUGH = [(1, 2), (2, 2), (2, 4), (4, 4), (4, 8), (8, 4)]
+
+
+def random_programs(rng, n):
+    """random high-contention programs: few keys, many same-key conflicts, tables small enough to displace and expand"""
+    progs = []
+    for i in range(n):
+        hm = rng.choice([0, 4, 6])
+        init_n = rng.choice([2, 4, 8])
+        keys = list(range(1, 9))
+        pre = rng.sample(range(1, 24), rng.randrange(2, 9))
+        prefill = " ".join("%d %d" % (k, k * 10) for k in pre)
+        threads = []
+        for t in range(3):
+            ops = []
+            for _ in range(rng.randrange(2, 4)):
+                k = rng.choice(keys + pre[:3])
+                op = rng.choice(["upsert %d %d" % (k, rng.randrange(1, 9)), "insert %d %d" % (k, rng.randrange(100)),
+                                 "erase %d" % k, "find %d" % k, "updatefn %d %d" % (k, rng.randrange(1, 9)),
+                                 "erasefn %d %d" % (k, rng.randrange(100)), "ioa %d %d" % (k, rng.randrange(100))])
+                ops.append(op)
+            threads.append(" ; ".join(ops))
+        progs.append(("random-%d" % i, hm, init_n, prefill, threads))
+    return progs
 
 
 def harness_for(S, M):
@@ -81,7 +119,7 @@ def program_text(p, runs):
     return "\n".join(lines) + "\n"
 
 
-def run_program(exe, p, runs, timeout=900):
+def run_program(exe, p, runs, timeout=240):
     rc, out, dt = C.sh([exe], input=program_text(p, runs), timeout=timeout)
     res = []
     for line in out.splitlines():
@@ -110,6 +148,8 @@ def explore(tier, seed, programs=None, with_traces=True):
     rng = random.Random(seed * 7777 + 3)
     cfgs = CONFIGS_QUICK if tier == "quick" else CONFIGS_THOROUGH
     progs = [p for p in PROGRAMS if programs is None or p[0] in programs]
+    if programs is None:
+        progs = progs + random_programs(rng, 10 if tier == "quick" else 60)
     n_np = 1500 if tier == "quick" else 20000     # non-preemptive + k preemptions
     n_rand = 300 if tier == "quick" else 4000
     out = {"executions": 0, "events": 0, "failures": [], "rejects": [], "traces": 0, "crashes": [], "build_errors": [],
@@ -157,6 +197,10 @@ def explore(tier, seed, programs=None, with_traces=True):
             if rc != 0 or len(res) != len(runs):
                 out["crashes"].append({"program": p[0], "config": "S=%d M=%d" % c, "rc": rc, "tail": tail,
                                        "input": program_text(p, runs)})
+                if res and (res[-1].get("budget") or res[-1].get("deadlock")):
+                    out["failures"].append({"program": p[0], "config": "S=%d M=%d" % c, "threads": p[4], "prefill": p[3], "hash": p[1],
+                                            "init_n": p[2], "run": "", "first_seed": None, "schedule": "",
+                                            "why": res[-1].get("why", "deadlock: no runnable thread"), "history": "", "bad_of_runs": "1/1"})
             for r, runline in zip(res, runs):
                 if r.get("bad", 0) or r.get("deadlock"):
                     out["failures"].append({"program": p[0], "config": "S=%d M=%d" % c, "threads": p[4], "prefill": p[3],
